@@ -303,7 +303,7 @@ def _gen_strategy(rng):
     cand = rng.randrange(NP)
     pos = rng.sample(range(NP - 1), NSAMPLE[fam])
     CR = rng.choice([0.9, 0.5, 0.1, 0.0, 1.0, 0.75])
-    F = rng.choice([0.8, 0.5, 1.0, 0.3, rng.uniform(0, 2)])
+    F = rng.choice([0.8, 0.5, 1.0, 0.3, 0.0, rng.uniform(0, 2)])
     n = rng.randrange(D)
 
     def u():
@@ -341,6 +341,10 @@ def _run_degen(case):
     calls = []
 
     def wrapped(inst, candidate):
+        if int(candidate) == 0:                    # (Solve-driven runs) state between generations
+            gen_snaps.append(dict(pop=[[float(v) for v in r] for r in inst.population], popE=[float(e) for e in inst.popEnergy],
+                                  best=[float(v) for v in inst.bestSolution], bestE=float(inst.bestEnergy), ncost=len(rec.calls),
+                                  ncalls=len(calls)))
         before = dict(cand=int(candidate), pop=[[float(v) for v in r] for r in inst.population],
                       best=[float(v) for v in inst.bestSolution], F=float(inst.scale), CR=float(inst.probability))
         sr = _ScriptedRandom(real=realfns)
@@ -357,12 +361,22 @@ def _run_degen(case):
                     ncalls=len(calls))
     solver.SetTermination(VTR(-1e300))
     solver.SetEvaluationLimits(10 ** 6, 10 ** 9)
+    gen_snaps = []
+    # F, CR and the strategy are REQUESTED as keywords of Step / Solve (never by poking solver.scale / solver.probability)
     kw = dict(strategy=wrapped, CrossProbability=case["CR"], ScalingFactor=case["F"], disp=False)
-    solver.Step(rec, **kw)                       # generation 0: evaluate the initial population
-    snaps = [snap()]
-    for g in range(case["gens"]):
-        solver.Step(**kw)
-        snaps.append(snap())
+    if case.get("drive", "step") == "step":
+        solver.Step(rec, **kw)                       # generation 0: evaluate the initial population
+        snaps = [snap()]
+        for g in range(case["gens"]):
+            if case.get("kw_once") and g > 0:
+                solver.Step(strategy=wrapped, disp=False)   # F / CR are sticky: requested once, they stay in force
+            else:
+                solver.Step(**kw)
+            snaps.append(snap())
+    else:
+        solver.SetEvaluationLimits(case["gens"], 10 ** 9)
+        solver.Solve(rec, **kw)
+        snaps = list(gen_snaps) + [snap()]
     return dict(snaps=snaps, calls=calls, cost=[[xs, y] for xs, y in rec.calls], nPop=int(solver.nPop))
 
 
@@ -383,10 +397,11 @@ def _oracle_degen(case, obs):
         bestE = a["bestE"]
         for c in range(NP):
             call = cs[c]
-            out += check_trial(name, call["pop"], call["best"], c, call["F"], call["CR"], call["rs"] or [], call["n"],
+            out += check_trial(name, call["pop"], call["best"], c, case["F"], case["CR"], call["rs"] or [], call["n"],
                                call["us"] + [2.0] * (case["D"] + 1), call["trial"], "generation %d candidate %d" % (g, c))
             if call["F"] != case["F"] or call["CR"] != case["CR"]:
-                out.append(_fail("trial_shape", site, "wrong-F-or-CR", [call["F"], call["CR"]]))
+                out.append(_fail("trial_shape", site, "requested-F-or-CR-not-in-force",
+                                 dict(requested=[case["F"], case["CR"]], in_force=[call["F"], call["CR"]], g=g, c=c)))
             x, e = ev[c]
             if x != call["trial"]:
                 out.append(_fail("generation_loop", site, "evaluated-point-is-not-the-trial", dict(g=g, c=c)))
@@ -418,7 +433,8 @@ def _gen_degen(rng):
     val = (lambda: rng.randint(-12, 12) / 4.0) if grid else (lambda: rng.uniform(-3, 3))
     pop = [[val() for _ in range(D)] for _ in range(NP)]
     return dict(kind="degen", solver=rng.choice([1, 2]), name=name, NP=NP, D=D, pop=pop, obj=obj, seed=rng.randrange(10 ** 6),
-                F=rng.choice([0.8, 0.5, 1.0, 0.25]), CR=rng.choice([0.9, 0.5, 0.2, 1.0]), gens=rng.choice([1, 2, 3, 4]))
+                F=rng.choice([0.8, 0.5, 1.0, 0.25, 0.0, 0.0, 1.0]), CR=rng.choice([0.9, 0.5, 0.2, 1.0, 0.0, 0.0, 1.0]),
+                gens=rng.choice([1, 2, 3, 4]), drive=rng.choice(["step", "step", "solve"]), kw_once=rng.random() < 0.3)
 
 
 
@@ -906,7 +922,8 @@ def classify(case, obs):
             tags.append("tie:u==CR")
         nontrivial = nm > 0
     elif k == "degen":
-        tags += ["strategy:" + case["name"], "solver:DE%d" % case["solver"], "cost:" + case["obj"]["fam"]]
+        tags += ["strategy:" + case["name"], "solver:DE%d" % case["solver"], "cost:" + case["obj"]["fam"],
+                 "drive:" + case.get("drive", "step"), "F:%g" % case["F"], "CR:%g" % case["CR"]]
         ties = repl = 0
         for g in range(1, len(obs["snaps"])):
             a, b = obs["snaps"][g - 1], obs["snaps"][g]
